@@ -1,5 +1,5 @@
 (* Props/C10.v — the single sequencer's batch queue is a durable FIFO with exactly-once delivery.
-   Statements only; every proof is [exact <lemma of Proofs/QueueProofs.v>].
+   Statements only; every proof is [exact <lemma of Proofs/QueueProofs.v, QueueKeysProofs.v, QueueBudgetProofs.v>].
    The model is the code AFTER the repair of the key scheme (fix recorded in findings/C10.entries.json).
 
    Histories (first part: one bound for the whole history; second part: a bound per process start): lists over  UOp (USubmit chain_id_ok batch) | UOp (UNext chain_id_ok) | URestart |
@@ -8,6 +8,7 @@
    a submitted batch is UNil | UEmpty | UB contents (equal contents = equal ids, and may recur freely). *)
 From Coq Require Import NArith List Bool.
 From Verif Require Import Model.Queue Proofs.QueueProofs.
+From Verif Require Import Model.QueueKeys Proofs.QueueKeysProofs Model.QueueBudget Proofs.QueueBudgetProofs.
 From Verif Require Proofs.GoLiteQueueRefine.
 Import ListNotations.
 Open Scope N_scope.
@@ -275,3 +276,70 @@ Theorem C10_translated_code_is_fifo_any_bounds_full : forall me max0 h,
     map snd (db (core (vr st))) = sv_final max0 h.
 Proof. exact GoLiteQueueRefine.go_vrun_fifo. Qed.
 Print Assumptions C10_translated_code_is_fifo_any_bounds_full.
+
+(* ==== THE RECORD KEYS AS BYTE STRINGS (Model/QueueKeys.v) ==================================================================
+   The theorems above identify a record's key with its sequence number and take the datastore's iteration order to be
+   numeric order.  The datastore orders byte strings.  For ALL uint64 sequence numbers and ALL hashes: the string order
+   of batchKey's keys ("s" ++ 16 hex digits ++ "-" ++ hash) is the numeric order of the sequence numbers — so a reload
+   in key order (Load, OrderByKey) is a reload in acceptance order however long the queue has been running, in
+   particular across every change of the number's digit count (15 -> 16, 255 -> 256, ...). *)
+Theorem C10_key_string_order_is_acceptance_order_full : forall a b ha hb, u64 a -> u64 b -> a <> b ->
+  lex_lt (key_string a ha) (key_string b hb) = (a <? b).
+Proof. exact key_string_order. Qed.
+Print Assumptions C10_key_string_order_is_acceptance_order_full.
+
+(* ... hence records listed in string-key order are listed in sequence-number order (what [db] of Model/Queue.v is) *)
+Theorem C10_records_in_key_string_order_full : forall (recs : list (N * list N)),
+  Forall (fun r => u64 (fst r)) recs -> NoDup (map fst recs) ->
+  sorted_by lex_lt (map (fun r => key_string (fst r) (snd r)) recs) = ssorted (map fst recs).
+Proof. exact string_sorted_iff_number_sorted. Qed.
+Print Assumptions C10_records_in_key_string_order_full.
+
+(* Load reads back (Sscanf "/s%016x-") exactly the number batchKey printed: numbering continues above every record *)
+Theorem C10_load_reads_back_the_sequence_number_full : forall sq hash, u64 sq -> key_seq (key_string sq hash) = sq.
+Proof. exact key_seq_key_string. Qed.
+Print Assumptions C10_load_reads_back_the_sequence_number_full.
+
+(* non-vacuity, and why the padding matters: without it the 17th batch's key sorts before the 3rd batch's *)
+Example ex_key_strings :
+  key_string 26 [97; 98] = [115; 48; 48; 48; 48; 48; 48; 48; 48; 48; 48; 48; 48; 48; 48; 49; 97; 45; 97; 98] /\
+  lex_lt (key_string 15 [102]) (key_string 16 [48]) = true /\
+  lex_lt (115 :: hex_fixed 2 16 ++ [45]) (115 :: hex_fixed 1 2 ++ [45]) = true.
+Proof. vm_compute. repeat split; reflexivity. Qed.
+
+(* ==== THE BYTE BUDGET OF A HAND-OUT REQUEST (Model/QueueBudget.v) ===========================================================
+   Histories in which every hand-out request states a byte budget (GetNextBatchRequest.MaxBytes; BNext ok max_bytes),
+   process starts naming their bound as above.  THE PROPERTY for ALL such histories: results, in-memory queue and
+   durable records are the plain FIFO's — what is handed out is the oldest accepted batch, ENTIRE, whatever the
+   budget; nothing of it stays behind, nothing is put back. *)
+Theorem C10_fifo_any_budget_full : forall max0 h, b_fifo max0 h.
+Proof. exact b_fifo_full. Qed.
+Print Assumptions C10_fifo_any_budget_full.
+
+(* the budgets can be replaced by "none" without changing a result, the final state or a datastore write *)
+Theorem C10_budget_is_ignored_full : forall max0 h,
+  b_run (v_st0 max0) (map no_budget h) = b_run (v_st0 max0) h /\
+  b_wlog max0 (map no_budget h) = b_wlog max0 h.
+Proof. exact b_budget_ignored. Qed.
+Print Assumptions C10_budget_is_ignored_full.
+
+(* one hand-out, in EVERY state, for EVERY budget: the oldest queued batch entire; the queue loses exactly that entry,
+   the sequence counter stays, and the only datastore write is the delete of that batch's record *)
+Theorem C10_hand_out_is_the_whole_oldest_batch_full : forall st mb k b r,
+  mem (core (vr st)) = (k, b) :: r ->
+  snd (v_step st (b_vitem (BOp (BNext true mb)))) = Some (RBatch b) /\
+  mem (core (vr (fst (v_step st (b_vitem (BOp (BNext true mb))))))) = r /\
+  db (core (vr (fst (v_step st (b_vitem (BOp (BNext true mb))))))) = db_del k (db (core (vr st))) /\
+  nseq (vr (fst (v_step st (b_vitem (BOp (BNext true mb)))))) = nseq (vr st) /\
+  v_wlog st [b_vitem (BOp (BNext true mb))] = [WDel k].
+Proof. exact b_next_whole_head. Qed.
+Print Assumptions C10_hand_out_is_the_whole_oldest_batch_full.
+
+(* non-vacuity: batch 7 (say three transactions, 3 bytes) and batch 8 accepted; a hand-out with a budget of 1 byte
+   returns batch 7 whole and deletes its record; after a restart the next hand-out (budget 2) is batch 8 *)
+Example ex_budget :
+  let h := [BOp (BSubmit true (UB 7)); BOp (BSubmit true (UB 8)); BOp (BNext true 1); BStart 0; BOp (BNext true 2);
+            BOp (BNext true 1)] in
+  b_outputs 0 h = [Some ROk; Some ROk; Some (RBatch 7); None; Some (RBatch 8); Some REmpty] /\
+  b_wlog 0 h = [WPut 0 7; WPut 1 8; WDel 0; WDel 1].
+Proof. vm_compute. split; reflexivity. Qed.
